@@ -418,7 +418,7 @@ def check_valid(assumptions, goal, lemmas=(), timeout_ms=None, want_model=True, 
             orig_job = None
         if rc == "unsat":
             return dict(status="proved", time_s=time.time() - t0, model=None, backend="z3+cvc5", fuel=z_fuel)
-        if rc == "sat":
+        if rc == "sat" and cert is None:
             disagreement = True
             last = "z3:unsat cvc5:sat (fuel %d)" % z_fuel
         elif not has_seq:
@@ -426,7 +426,13 @@ def check_valid(assumptions, goal, lemmas=(), timeout_ms=None, want_model=True, 
             return dict(status="proved", time_s=time.time() - t0, model=None, backend="z3(cvc5:%s)" % rc, fuel=z_fuel)
         else:
             budget = 120 if thorough else 75
-            extra = [_Cvc5Job(cert_smt, budget, "cli-lazy"), _Cvc5Job(cert_smt, budget, "py")]
+            # (`sat` on a CERTIFICATE is not a disagreement: the certificate holds only the lemma instances of z3's refutation, and z3
+            #  may have used an instance it found by model-based instantiation, which leaves no quant-inst step; the quantified query
+            #  itself then goes to the cvc5 portfolio, and only its answer counts)
+            cert_incomplete = (rc == "sat" and cert is not None)
+            extra = [] if cert_incomplete else [_Cvc5Job(cert_smt, budget, "cli-lazy"), _Cvc5Job(cert_smt, budget, "py")]
+            if cert_incomplete:
+                extra = [_Cvc5Job(queries[z_fuel][1], budget, "cli-lazy"), _Cvc5Job(queries[z_fuel][1], budget, "py")]
             if cert is not None:
                 oj = orig_job if (orig_job is not None and getattr(orig_job, "_res", None) is None) else \
                     _Cvc5Job(queries[z_fuel][1], budget)
